@@ -35,6 +35,38 @@ R_<TG_, TA_>::R_(PureContext&& context
 
 // - - - - - - - - - - - - - - - - - - - - - - - - - - - - - - - - - - - - - - -
 
+#if HFSM2_STRUCTURE_REPORT_AVAILABLE()
+
+template <typename TG_, typename TA_>
+HFSM2_CONSTEXPR(14)
+R_<TG_, TA_>::R_(const R_& other) noexcept
+	: _prefixes		  {other._prefixes		 }
+	, _structure	  {other._structure		 }
+	, _activityHistory{other._activityHistory}
+	, _core			  {other._core			 }
+	, _apex			  {other._apex			 }
+{
+	relinkStructure(other);
+}
+
+// - - - - - - - - - - - - - - - - - - - - - - - - - - - - - - - - - - - - - - -
+
+template <typename TG_, typename TA_>
+HFSM2_CONSTEXPR(14)
+R_<TG_, TA_>::R_(R_&& other) noexcept
+	: _prefixes		  {move(other._prefixes		  )}
+	, _structure	  {move(other._structure	  )}
+	, _activityHistory{move(other._activityHistory)}
+	, _core			  {move(other._core			  )}
+	, _apex			  {move(other._apex			  )}
+{
+	relinkStructure(other);
+}
+
+#endif
+
+// - - - - - - - - - - - - - - - - - - - - - - - - - - - - - - - - - - - - - - -
+
 template <typename TG_, typename TA_>
 HFSM2_CONSTEXPR(20)
 R_<TG_, TA_>::~R_() noexcept {
@@ -871,6 +903,18 @@ R_<TG_, TA_>::getStateNames() noexcept {
 			}
 		}
 	}
+}
+
+// - - - - - - - - - - - - - - - - - - - - - - - - - - - - - - - - - - - - - - -
+
+template <typename TG_, typename TA_>
+HFSM2_CONSTEXPR(14)
+void
+R_<TG_, TA_>::relinkStructure(const R_& other) noexcept {
+	// entries copied from 'other' still point into other's prefixes
+	for (Long s = 0; s < _structure.count(); ++s)
+		if (_structure[s].prefix)
+			_structure[s].prefix = &_prefixes[0][0] + (_structure[s].prefix - &other._prefixes[0][0]);
 }
 
 // - - - - - - - - - - - - - - - - - - - - - - - - - - - - - - - - - - - - - - -
